@@ -353,7 +353,9 @@ class Ctx:
                 missing = [c["n"] for c in part if c["n"] not in results]
                 # the case being executed when the engine died
                 for n in missing[:1]:
-                    results[n] = {"n": n, "ok": False, "crash": True, "detail": "engine exited rc=%s before answering; log tail:\n%s" % (p.returncode, tail)}
+                    # killed by a signal (OOM killer, timeout kill, operator) is the environment, not behaviour of dolt
+                    results[n] = {"n": n, "ok": False, "crash": True, "signal": (p.returncode or 0) < 0,
+                                  "detail": "engine exited rc=%s before answering; log tail:\n%s" % (p.returncode, tail)}
                 for n in missing[1:]:
                     results[n] = {"n": n, "ok": None, "skipped": True}
         return [results[i] for i in range(len(cases))]
@@ -453,6 +455,8 @@ class Ctx:
             if r2.get("ok"):
                 self.notes.append("unreproduced mismatch (ignored): " + json.dumps(r)[:500])
                 continue
+            if r2.get("signal"):
+                raise Inconclusive("engine killed by a signal while re-executing a failing case (resource pressure?): " + str(r2.get("detail"))[:300])
             fp = fingerprint(c, r2) if fingerprint else (str(r2.get("fp") or r2.get("step_action") or "mismatch"))
             self.violation(fp, r2.get("detail") or json.dumps(r2)[:1500], {"case": c, "result": r2, "reproduced": True})
         if bad and not self.violations and not self.known_hits and not any("unreproduced" in n for n in self.notes):
